@@ -164,6 +164,15 @@ def serde_facts(g, type_item):
     return out
 
 
+def _skip_keys(body):
+    """keys of fields that serde_derive serialises conditionally (`skip_serializing_if`: `if pred(v) { skip_field(key) } else {..}`)"""
+    out = []
+    for c in A.find_all(body, lambda n: isinstance(n, dict) and _call_named(n, "skip_field")):
+        k = c["args"][1] if len(c["args"]) > 1 else None
+        out.append(k["v"] if k and k.get("k") == "lit" else "?")
+    return out
+
+
 def _ser_facts(impl, type_item):
     name = type_item["name"]
     f = [x for x in impl["items"] if x.get("k") == "fn" and x["name"] == "serialize"]
@@ -189,6 +198,7 @@ def _ser_facts(impl, type_item):
                 src = v["member"]
             fields.append((key["v"], src))
         res["struct_fields"] = fields
+        res["struct_skips"] = _skip_keys(body)
         return res
     # enum: match *self { E::V { ref a, .. } => { ... } }
     ms = A.find_all(body, lambda n: isinstance(n, dict) and n.get("k") == "match" and n.get("x"))
@@ -217,7 +227,7 @@ def _ser_facts(impl, type_item):
                 if val["k"] == "path":
                     src = binds.get(A.path_ids(val)[0])
                 fields.append((key["v"] if key["k"] == "lit" else None, src))
-            res["variants"][vname] = {"wire": wire["v"], "fields": fields}
+            res["variants"][vname] = {"wire": wire["v"], "fields": fields, "skips": _skip_keys(arm["body"])}
         elif p["k"] == "tuplestruct":
             vname = p["path"]["segs"][-1]["id"]
             # skipped variant (Err(custom("cannot be serialized"))) or untagged newtype (Serialize::serialize(field, ser))
